@@ -45,6 +45,7 @@ type groupsRun struct {
 	muxPort  int
 	mu       sync.Mutex
 	objAl    map[string]string
+	objN     int
 	gidPxy   map[int64]string
 	peers    []*autoPeer
 	members  []*grpMember
@@ -110,8 +111,10 @@ func (r *groupsRun) mapper(point string, kv []any) []any {
 		case "obj":
 			s, _ := v.(string)
 			a, ok := r.objAl[s]
-			if !ok {
-				a = fmt.Sprintf("o%d", len(r.objAl)+1)
+			if created, _ := m["created"].(bool); !ok || (point == "group.lookedup" && created) {
+				// a newly created group object is a new identity even when the allocator reuses an address
+				r.objN++
+				a = fmt.Sprintf("o%d", r.objN)
 				r.objAl[s] = a
 			}
 			v = a
@@ -376,6 +379,7 @@ func (r *groupsRun) raceLastLeave() bool {
 
 func (r *groupsRun) one(traceNo, steps int) {
 	r.objAl = map[string]string{}
+	r.objN = 0
 	r.gidPxy = map[int64]string{}
 	r.arrivals = map[int]string{}
 	r.peers = nil
